@@ -11,11 +11,12 @@ MAX_INT = 2**62
 
 
 def _splitmix64(x: torch.Tensor) -> torch.Tensor:
-    x = x ^ (x >> 30)
+    # int64 shifts are arithmetic; masking makes them logical, as splitmix64 requires.
+    x = x ^ ((x >> 30) & 0x3FFFFFFFF)
     x = x * 0xBF58476D1CE4E5B9
-    x = x ^ (x >> 27)
+    x = x ^ ((x >> 27) & 0x1FFFFFFFFF)
     x = x * 0x94D049BB133111EB
-    x = x ^ (x >> 31)
+    x = x ^ ((x >> 31) & 0x1FFFFFFFF)
     return x
 
 
